@@ -37,9 +37,30 @@ def sig_exec(req):
     return " ".join(toks[1:2])
 
 
+def exact(names):
+    return ",".join("=" + n for n in names)
+
+
 PROPS = {
+    "C04": {
+        "scenarios": lambda tier, q: [
+            {"name": "exec", "args": [exact(q("scope C04")), "600" if tier == "quick" else "6000"]},
+        ],
+        "signature": sig_exec,
+        "rule": "every instruction of the C04 reference table (52 names), driven by NAME through InstructionSet, on generated states: operands from the boundary pools (i32 MIN/MAX/0/±1, ±0.0, subnormal, ±MAX, ±inf, NaN) and random, rich and sparse stacks; non-trivial = the state changed; distinct = distinct request lines",
+        "assumptions": ["float results are pinned up to the opaque Float32 operation (same libm in the driver and in pushr)"],
+    },
+    "C05": {
+        "scenarios": lambda tier, q: [
+            {"name": "exec", "args": [exact(q("scope C05")), "400" if tier == "quick" else "4000"]},
+            {"name": "stkgrid", "args": []},
+        ],
+        "signature": sig_exec,
+        "rule": "all 78 registered DUP/POP/SWAP/ROT/YANK/YANKDUP/SHOVE/FLUSH/STACKDEPTH instructions of the nine stack types, by NAME: an exhaustive grid (depths 0..6 x 14 indices incl. negative, 0, in range, = depth, > depth, i32::MIN/MAX) plus generated states; non-trivial = the state changed; distinct = distinct request lines",
+        "assumptions": [],
+    },
     "C01": {
-        "scenarios": lambda tier: [
+        "scenarios": lambda tier, q: [
             {"name": "exec", "args": ["*"]},
         ],
         "signature": sig_exec,
@@ -48,7 +69,7 @@ PROPS = {
                         "resource envelope: operand-controlled allocation sizes bounded (C15 owns the envelope itself)"],
     },
     "C16": {
-        "scenarios": lambda tier: [
+        "scenarios": lambda tier, q: [
             {"name": "stack", "args": []},
             {"name": "stack-exh", "args": []},
         ],
